@@ -11,14 +11,22 @@ FilesOf(in) == [i \in DOMAIN in.files |->
 \* does not say where the operands end); such vectors are not judged.
 InDomain(in, obs) == in.toks = <<>> \/ in.toks[1] \notin {"comma", "rp"}
 
+\* "split": the entries directly beneath the top directory are given as the starting points, in order, instead of the
+\* directory itself: the same visit sequence without its first element (and -quit ends the run across starting points)
+Split(in) == "split" \in DOMAIN in /\ in.split
+Run(in) ==
+  IF Split(in)
+  THEN LET r == RefRun(in.toks, Tail(FilesOf(in))) IN [k \in DOMAIN r |-> <<r[k][1] + 1, r[k][2]>>]
+  ELSE RefRun(in.toks, FilesOf(in))
+
 Conforms(in, obs) ==
   /\ "panic" \notin DOMAIN obs
   /\ IF RefParse(in.toks).ok
-     THEN obs.exit = 0 /\ obs.run = RefRun(in.toks, FilesOf(in))
+     THEN obs.exit = 0 /\ obs.run = Run(in)
      ELSE obs.exit # 0 /\ obs.diag /\ obs.run = <<>>
 
 Describe(in) == [ok |-> RefParse(in.toks).ok,
-                 run |-> IF RefParse(in.toks).ok THEN RefRun(in.toks, FilesOf(in)) ELSE <<>>]
+                 run |-> IF RefParse(in.toks).ok THEN Run(in) ELSE <<>>]
 
 Beyond(in) == FALSE
 INSTANCE TraceCheck
